@@ -245,8 +245,8 @@ def make(eng, k, labels, nkinds=3, with_fm=False):
 def families(tier, seed):
     q = tier == "quick"
     F = []
-    for k, labels in ([(2, LABELS), (3, ["a", "b", "1"]), (3, ["a", "1", "\u00b2"]), (4, ["a", "b"])] if q else [(3, LABELS), (3, LABELS + ["\u00b2", "\u0663"]), (4, ["a", "b", "2"]), (4, ["a", "2", "\u00b2"]), (5, ["a", "b"]), (4, LABELS)]):
-        F.append(Family("arr/K%d-L%d%s" % (k, len(labels), "u" if any(ord(ch) > 127 for l in labels for ch in l) else ""), make, "all arrangements of %d items (reference / definition / definition in a block quote) over labels %r x footnote_sort x footnote_transition" % (k, labels),
+    for k, labels in ([(2, LABELS), (3, ["a", "b", "1"]), (3, ["a", "1", "\u00b2"]), (3, ["2", "10", "007"]), (3, ["Note", "a", "1"]), (4, ["a", "b"])] if q else [(3, LABELS), (3, LABELS + ["\u00b2", "\u0663"]), (4, ["a", "b", "2"]), (4, ["a", "2", "\u00b2"]), (5, ["a", "b"]), (4, LABELS)]):
+        F.append(Family("arr/K%d-L%d%s" % (k, len(labels), "u" if any(ord(ch) > 127 for l in labels for ch in l) else "z" if "007" in labels else "c" if "Note" in labels else ""), make, "all arrangements of %d items (reference / definition / definition in a block quote) over labels %r x footnote_sort x footnote_transition" % (k, labels),
                         args=dict(k=k, labels=labels), nontrivial=("linked" if k >= 3 else None), max_forks=400000, required=(k <= 4 and len(labels) <= 3 or k <= 3)))
     F.append(Family("arr/K3-nested+frontmatter", make, "3 items (reference / definition / definition in a quote / definition nested in the body of the preceding definition) over labels ['a', '1'] x settings given globally or "
                     "overridden in the front matter (global value opposite)", args=dict(k=3, labels=["a", "1"], nkinds=4, with_fm=True), nontrivial="linked", max_forks=400000))
